@@ -70,7 +70,21 @@ Theorem C05_file_eq_string_selected : forall sw evs n, SelStringOn sw n = true -
   (forall e, In e evs -> self_chunks chunk n e = sel_chunks chunk n e) ->
   sel_file chunk (consume chunk STOPPING add_nl sw evs) n = sel_string chunk (consume chunk STOPPING add_nl sw evs) n.
 Proof. exact (file_eq_string_selected chunk STOPPING add_nl). Qed.
+
+(** every value that reaches the table of n also reaches its string, in order, when values are punched only while the
+    text sinks are on (the stream hypothesis checked on every recorded run); the hypothesis is necessary *)
+Theorem C05_table_values_in_string : forall sw evs n, SelStringOn sw n = true -> vals_on chunk n evs ->
+  sublist (flat_map (val_texts chunk n) evs) (sel_string chunk (consume chunk STOPPING add_nl sw evs) n).
+Proof. exact (table_values_in_string chunk STOPPING add_nl). Qed.
+
+Theorem C05_punch_on_needed : forall sw (name : string) (v : cell) (c : chunk), SelStringOn sw 1%Z = true ->
+  let evs : list (ev chunk) := [ENewTable 1%Z; EPunchVal 1%Z false false name v c; EEndRow 1%Z []] in
+  sel_string chunk (consume chunk STOPPING add_nl sw evs) 1%Z = [] /\ flat_map (val_texts chunk 1%Z) evs = [c] /\
+  flat_map (so_ops chunk 1%Z) evs = [OPush name v; OEndRow].
+Proof. exact (punch_on_needed chunk STOPPING add_nl). Qed.
 End Sinks.
+Print Assumptions C05_table_values_in_string.
+Print Assumptions C05_punch_on_needed.
 Print Assumptions C05_sel_string_is_event_fold.
 Print Assumptions C05_sel_file_is_event_fold.
 Print Assumptions C05_table_is_event_fold.
